@@ -8,7 +8,7 @@ Local Open Scope Z_scope.
 Definition bid_eqb (a b : bid) : bool :=
   match a, b with
   | BSrc, BSrc | BNulBytes, BNulBytes | BNulFelts, BNulFelts | BUaBytes, BUaBytes | BUaFelts, BUaFelts
-  | BPre, BPre | BPad, BPad | BSalt, BSalt | BSqueeze, BSqueeze | BErr, BErr => true
+  | BPre, BPre | BPad, BPad | BSalt, BSalt | BSqueeze, BSqueeze | BErr, BErr | BSf, BSf => true
   | _, _ => false
   end.
 Lemma bid_eqb_spec a b : bid_eqb a b = true <-> a = b.
@@ -212,7 +212,8 @@ Definition hstate_of (m : mstate) : hstate :=
       (live_cell (m_nf m) (vec_bytes (fst nullifier_to_felts)))
       (live_cell (m_ub m) (vec_bytes (fst unspendable_to_bytes)))
       (live_cell (m_uf m) (vec_bytes (fst unspendable_to_felts)))
-      dead_cell dead_cell dead_cell dead_cell dead_cell.
+      dead_cell dead_cell dead_cell dead_cell dead_cell
+      (live_cell (m_sf m) (vec_bytes (fst caller_spare_felts))).
 
 Definition hashes_secret (o : op) : bool := match o with NulFromPreimage | UaFromSecret => true | _ => false end.
 Definition is_pad (sk : Z * Z) : bool := snd sk =? K_UPSTREAM_PAD.
@@ -231,7 +232,7 @@ Definition hstate_eqb (h k : hstate) : bool :=
   cell_eqb (h_src h) (h_src k) && cell_eqb (h_nb h) (h_nb k) && cell_eqb (h_nf h) (h_nf k) &&
   cell_eqb (h_ub h) (h_ub k) && cell_eqb (h_uf h) (h_uf k) && cell_eqb (h_pre h) (h_pre k) &&
   cell_eqb (h_pad h) (h_pad k) && cell_eqb (h_salt h) (h_salt k) && cell_eqb (h_sq h) (h_sq k) &&
-  cell_eqb (h_err h) (h_err k).
+  cell_eqb (h_err h) (h_err k) && cell_eqb (h_sf h) (h_sf k).
 
 Lemma cell_eqb_eq x y : cell_eqb x y = true -> x = y.
 Proof.
@@ -242,9 +243,9 @@ Proof.
 Qed.
 Lemma hstate_eqb_eq h k : hstate_eqb h k = true -> h = k.
 Proof.
-  destruct h as [a1 a2 a3 a4 a5 a6 a7 a8 a9 a10], k as [b1 b2 b3 b4 b5 b6 b7 b8 b9 b10]. unfold hstate_eqb.
-  cbn [h_src h_nb h_nf h_ub h_uf h_pre h_pad h_salt h_sq h_err]. intro H.
-  do 9 (apply andb_true_iff in H; let H' := fresh "H" in destruct H as [H H']).
+  destruct h as [a1 a2 a3 a4 a5 a6 a7 a8 a9 a10 a11], k as [b1 b2 b3 b4 b5 b6 b7 b8 b9 b10 b11]. unfold hstate_eqb.
+  cbn [h_src h_nb h_nf h_ub h_uf h_pre h_pad h_salt h_sq h_err h_sf]. intro H.
+  do 10 (apply andb_true_iff in H; let H' := fresh "H" in destruct H as [H H']).
   repeat match goal with X : cell_eqb _ _ = true |- _ => apply cell_eqb_eq in X end.
   subst. reflexivity.
 Qed.
@@ -254,10 +255,10 @@ Definition step_check (m : mstate) (o : op) : bool :=
   ok_of r && forallb obs_entry_ok (snd r) && (count_pad (snd r) =? (if hashes_secret o then 1 else 0))%nat &&
   hstate_eqb (heap_of r) (hstate_of (fst (op_step m o))).
 
-(* 34 calls x 128 caller states, by computation *)
+(* 37 calls x 256 caller states, by computation *)
 Lemma step_check_all : forall m o, step_check m o = true.
 Proof.
-  intros [[] [] [] [] [] [] []] o; destruct o; vm_compute; reflexivity.
+  intros [[] [] [] [] [] [] [] []] o; destruct o; vm_compute; reflexivity.
 Qed.
 
 Lemma step_inv m o :
@@ -277,7 +278,7 @@ Lemma final_inv m :
   ok_of (run_trace (hstate_of m) (final_events m)) = true /\
   forallb obs_entry_ok (snd (run_trace (hstate_of m) (final_events m))) = true /\
   count_pad (snd (run_trace (hstate_of m) (final_events m))) = 0%nat.
-Proof. destruct m as [[] [] [] [] [] [] []]; vm_compute; repeat split; reflexivity. Qed.
+Proof. destruct m as [[] [] [] [] [] [] [] []]; vm_compute; repeat split; reflexivity. Qed.
 
 Fixpoint count_hash_ops (ops : list op) : nat :=
   match ops with [] => 0%nat | o :: r => ((if hashes_secret o then 1 else 0) + count_hash_ops r)%nat end.
